@@ -1583,3 +1583,51 @@ def spec_complete_candidates(fns, consts):
 
 spec_complete_candidates.crate = "clap_complete"
 SPECS["C18"].append(spec_complete_candidates)
+
+
+# ------------------------------------------------------------------ C05: which positional a token goes to (the counter step of Parser::parse)
+
+def spec_positional_counter(fns, consts):
+    """Parser::parse, the block that chooses the positional for the current token, from an arbitrary
+    state (pos_counter, trailing_values, positional_count, contains_last, low_index_mults, missing_pos,
+    is_terminated all free).  Outside the look-ahead case ((low_index_mults || missing_pos) && !is_terminated):
+        pos_counter' = trailing_values && (allow_missing_positional || contains_last) ? positional_count : pos_counter
+    i.e. after `--` the values go to the highest-index (`last`) positional whether or not the current
+    positional was terminated; inside it the counter stays or advances by one."""
+    con = contracts.Contracts(fns, default_pure=True)
+    ctx = symex.Ctx(consts, con)
+    fn = _find(fns, "parser/parser.rs", "parse")
+    names = ("pos_counter", "trailing_values", "positional_count", "contains_last", "low_index_mults", "missing_pos", "is_terminated")
+    L = {n: fn.debug.get(n) for n in names}
+    if not all(L.values()):
+        raise Unsupported("Parser::parse: locals not found: " + repr(L))
+    start = [b for b, blk in fn.blocks.items() if len(blk["stmts"]) == 2 and re.match(rf"^(_\d+) = copy {L['low_index_mults']};?$", blk["stmts"][0]) and blk["stmts"][1].startswith("switchInt(move ")]
+    stop = [b for b, blk in fn.blocks.items() if re.match(rf"^{L['pos_counter']} = move (_\d+);?$", blk["stmts"][0]) and any("Command::get_keymap(" in s for s in blk["stmts"])]
+    if len(start) != 1 or len(stop) != 1:
+        raise Unsupported(f"Parser::parse: positional-counter block not found (start {start}, join {stop})")
+    new_local = re.match(rf"^{L['pos_counter']} = move (_\d+);?$", fn.blocks[stop[0]]["stmts"][0]).group(1)
+    S = {n: (("bv", ctx.sym(n, "(_ BitVec 64)"), 64) if n in ("pos_counter", "positional_count") else ("bool", ctx.sym(n, "Bool"))) for n in names}
+    ex = symex.Exec(ctx, fn, [("opq", "self"), ("opq", "matcher"), ("opq", "raw_args"), ("opq", "cursor")])
+    ex.run(start=start[0], stop_at=stop[0], env={L[n]: S[n] for n in names}, havoc_unassigned=True, cut_loops=True)
+    allow = ex.typed_fresh("command::Command::is_allow_missing_positional_set(self.0)", "bool")[1]
+    p, pcnt = S["pos_counter"][1], S["positional_count"][1]
+    look = f"(and (or {S['low_index_mults'][1]} {S['missing_pos'][1]}) (not {S['is_terminated'][1]}))"
+    ref = f"(ite (and {S['trailing_values'][1]} (or {allow} {S['contains_last'][1]})) {pcnt} {p})"
+    obs = []
+    for pc, env in ex.stops:
+        new = env.get(new_local)
+        if new is None or new[0] != "bv":
+            obs.append({"fn": fn.name, "block": "counter", "kind": "spec", "target": "positional_counter", "msg": "the chosen positional index is not an integer value on this path", "pc": list(pc), "neg": "true"})
+            continue
+        obs.append({"fn": fn.name, "block": "counter", "kind": "spec", "target": "positional_counter",
+                    "msg": "outside the look-ahead case the token goes to the `last` positional after `--` (when one exists), else to the current one",
+                    "pc": list(pc), "neg": f"(and (not {look}) (not (= {new[1]} {ref})))"})
+        obs.append({"fn": fn.name, "block": "counter", "kind": "spec", "target": "positional_counter",
+                    "msg": "in the look-ahead case the counter stays or advances by exactly one",
+                    "pc": list(pc), "neg": f"(and {look} (not (= {new[1]} {p})) (not (= {new[1]} (bvadd {p} (_ bv1 64)))))"})
+    if len(ex.stops) < 3:
+        obs.append({"fn": fn.name, "block": "shape", "kind": "spec", "target": "positional_counter", "msg": "the positional-counter block no longer has the reference shape", "pc": [], "neg": "true"})
+    return ctx, obs, [{"function": fn.name + f" [positional-counter block {start[0]}..{stop[0]}]", "mir_line": fn.line, "mir_blocks": len(fn.blocks), "obligations": len(obs), "return_paths": len(ex.stops)}], con
+
+
+SPECS["C05"].append(spec_positional_counter)
